@@ -241,4 +241,23 @@ theorem phases_terminate (fixed : Bool) (reads : List Read) (k : Nat) (br : Bool
     · exact List.mem_range.mp (List.mem_filter.mp hi).1
     · exact List.mem_range.mp hi
 
+/-- unpacking a successful run -/
+theorem readselection_ok {fixed : Bool} {reads : List Read} {k : Nat} {br : Bool} {cs : List Nat} {sel : List Nat}
+    (h : readselection fixed reads k br cs = .ok sel) :
+    (∀ r ∈ reads, 2 ≤ r.pos.length) ∧ sel = (phases fixed reads k br cs).2.selected := by
+  unfold readselection at h
+  split at h
+  · cases h
+  · rename_i h2
+    split at h
+    · cases h
+    · simp only at h
+      split at h
+      · cases h
+      · simp only [Outcome.ok.injEq] at h
+        refine ⟨?_, h.symm⟩
+        intro r hr
+        simp only [List.any_eq_true, decide_eq_true_eq, not_exists, not_and, Nat.not_lt] at h2
+        exact h2 r hr
+
 end WhVerif.C07
